@@ -357,7 +357,11 @@ func run(t *testing.T, plan any, keep bool) *simcheck.Outcome {
 				}
 				if err == nil {
 					use(cachekit.IndexPath(dir, id), now)
-					use(cachekit.DataPath(dir, e.OutputID), now)
+					// (GetBytes also succeeds for the empty output when its file is gone - nothing hashes to the
+					// empty hash - and a file that does not exist cannot have been used)
+					if _, serr := os.Stat(cachekit.DataPath(dir, e.OutputID)); serr == nil {
+						use(cachekit.DataPath(dir, e.OutputID), now)
+					}
 				} else if _, serr := os.Stat(cachekit.IndexPath(dir, id)); serr == nil {
 					// the index entry was found and read (that is a use of it) although the lookup as a
 					// whole failed because an earlier Trim had removed the output file
@@ -609,6 +613,18 @@ func run(t *testing.T, plan any, keep bool) *simcheck.Outcome {
 					} else {
 						modelRecOK = false
 					}
+				}
+			}
+			if os.Getenv("VERIF_C13_DEBUG") != "" {
+				fmt.Fprintf(os.Stderr, "DEBUG step %d %s now=%s\n", si, st.Kind, simtime.Now().UTC().Format(time.RFC3339))
+				var ks []string
+				for k := range files {
+					ks = append(ks, k)
+				}
+				sort.Strings(ks)
+				for _, k := range ks {
+					mt, ok := simos.Mtime(filepath.Join(dir, k))
+					fmt.Fprintf(os.Stderr, "   %s model=%s known=%v real=%s(%v)\n", k[:12], files[k].lastUse.UTC().Format(time.RFC3339), files[k].known, mt.UTC().Format(time.RFC3339), ok)
 				}
 			}
 			if out.Violation != nil {
